@@ -41,6 +41,7 @@ type TCPFault struct {
 	AtMs       int    `json:"at_ms,omitempty"`
 	AsBackup   bool   `json:"as_backup,omitempty"`
 	AfterStart int    `json:"after_start,omitempty"` // >= 1: AfterStart-1 steps after Start() returned
+	Site       string `json:"site,omitempty"`        // fire when a task is parked at a site containing this text (after the other trigger is due)
 }
 
 type TCPScenario struct {
@@ -82,6 +83,7 @@ type peer struct {
 	eof, reset    bool
 	bad           string
 	connectedStep int64
+	connectedAt   time.Time
 	evSeq         int
 	other         *peer // the peer this one turned out to be connected to
 }
@@ -232,6 +234,7 @@ type tcpWorld struct {
 	memberHistory                 []memberEvent
 	onServerConn                  func(w *tcpWorld, p *peer, b *world.Backend)
 	startedStep                   int64
+	probeDownSince                map[int]time.Time
 	changeDone                    map[int64]int64 // step at which a membership change was requested -> step at which its task returned
 	changeTasks                   map[int64]*simhook.Task
 	removed                       []removedHost
@@ -278,7 +281,7 @@ func (w *tcpWorld) Setup(rt *simhook.Runtime) {
 	for _, b := range w.env.Backends {
 		b.OnConn = func(b *world.Backend, e *simnet.End, first []byte) {
 			idx := len(w.servers)
-			p := &peer{w: w, name: fmt.Sprintf("srv%d", idx), end: e, header: fmt.Sprintf("B%03d.%03d:", b.Idx, idx), connectedStep: rt.Step}
+			p := &peer{w: w, name: fmt.Sprintf("srv%d", idx), end: e, header: fmt.Sprintf("B%03d.%03d:", b.Idx, idx), connectedStep: rt.Step, connectedAt: time.Now()}
 			w.servers = append(w.servers, p)
 			if w.sc.Headerless {
 				p.header = ""
@@ -365,7 +368,7 @@ func (w *tcpWorld) connectClient(i int) {
 		w.rt.Logf("client %s refused", c.Name)
 		return
 	}
-	p := &peer{w: w, name: "cl-" + c.Name, end: e, header: w.clientHeader(i), spec: c.C2S, connectedStep: w.rt.Step}
+	p := &peer{w: w, name: "cl-" + c.Name, end: e, header: w.clientHeader(i), spec: c.C2S, connectedStep: w.rt.Step, connectedAt: time.Now()}
 	w.clients = append(w.clients, p)
 	if w.sc.Headerless {
 		p.header = ""
@@ -465,6 +468,14 @@ func (w *tcpWorld) fireFaults() {
 				due = w.startedStep >= 0 && w.rt.Step-w.startedStep >= int64(f.AfterStart-1)
 			}
 		}
+		if due && f.Site != "" {
+			due = false
+			for _, t := range w.rt.Parked() {
+				if strings.Contains(t.Site, f.Site) {
+					due = true
+				}
+			}
+		}
 		if due && strings.HasPrefix(f.Kind, "host-") {
 			// the controller applies membership changes one after the other: wait for the previous one
 			for _, t := range w.hostTasks {
@@ -560,9 +571,14 @@ func (w *tcpWorld) inject(f *TCPFault) bool {
 		return true
 	case "probe-fail":
 		w.env.Backends[f.Node].ProbeOK = false
+		if w.probeDownSince == nil {
+			w.probeDownSince = map[int]time.Time{}
+		}
+		w.probeDownSince[f.Node] = time.Now()
 		return true
 	case "probe-ok":
 		w.env.Backends[f.Node].ProbeOK = true
+		delete(w.probeDownSince, f.Node)
 		return true
 	case "stop":
 		if w.stopRequested || w.env.StartTask == nil {
@@ -619,8 +635,13 @@ func (w *tcpWorld) Done() bool {
 	if w.connectEvents > len(w.clients)+len(w.refused) {
 		return false
 	}
-	if !w.allFaultsFired() || !w.peersSettled() || !w.env.Quiet() {
+	if !w.peersSettled() || !w.env.Quiet() {
 		return false
+	}
+	for i, f := range w.sc.Faults {
+		if !w.fired[i] && f.Site == "" {
+			return false
+		}
 	}
 	if w.stopRequested && !w.env.StopReturned {
 		return false
